@@ -14,8 +14,9 @@ import (
 // C13 — parsing is a pure, re-entrant function of its input.
 
 type c13Op struct {
-	Kind string `json:"kind"` // parse | eval | print
-	Text int    `json:"text"` // index into the corpus
+	Kind string `json:"kind"`           // parse | eval | print | evalshared (a tree parsed once, evaluated by several tasks)
+	Text int    `json:"text"`           // index into the corpus
+	Name int    `json:"name,omitempty"` // >0: the call passes this input name instead of the plan's default for the text
 }
 
 type c13Plan struct {
@@ -25,6 +26,13 @@ type c13Plan struct {
 	Shared   bool              `json:"shared_provider"`
 	Tasks    [][]c13Op         `json:"tasks"`
 	Names    bool              `json:"names_per_text,omitempty"` // every corpus text is parsed under its own input name (else all under one name)
+}
+
+func (p *c13Plan) nameFor(op c13Op) string {
+	if op.Name > 0 {
+		return fmt.Sprintf("c13n%d", op.Name)
+	}
+	return p.nameOf(op.Text)
 }
 
 func (p *c13Plan) nameOf(text int) string {
@@ -44,6 +52,10 @@ type c13KeptErr struct {
 
 var c13Errs *[]c13KeptErr
 
+// trees shared by the tasks of the concurrent phase (op kind evalshared)
+var c13Shared map[int]*parser.ASTNode
+var c13SharedErp *interpreter.ECALRuntimeProvider
+
 func init() {
 	register(&Workload{ID: "C13", Gen: c13Gen, New: func() interface{} { return &c13Plan{} },
 		Run: func(p interface{}) { c13Run(p.(*c13Plan)) }, Shrink: c13Shrink, Budget: 8_000_000, HB: true})
@@ -55,7 +67,10 @@ func c13Stmt(r *simrt.RNG, depth int) string {
 		n = 1000 + r.Intn(1000000) // identifiers this process has most likely never seen
 	}
 	a, b := 1+r.Intn(5), 1+r.Intn(5)
-	switch r.Intn(13) {
+	switch r.Intn(14) {
+	case 13:
+		// a loop whose number of iterations shows in the result
+		return fmt.Sprintf("w%d := 0\nfor i in range(1, %d) {\n    w%d := w%d + i\n}\nw%d", n, a+1, n, n, n)
 	case 12:
 		return fmt.Sprintf("mutex mx%d {\n    g%d := %d\n}", n%5, n, a)
 	case 0:
@@ -162,9 +177,30 @@ func c13Gen(r *simrt.RNG, tier string) interface{} {
 			} else if r.Bool(0.3) {
 				k = "print" // parse + pretty print (the printer's templates are process-wide)
 			}
-			ops = append(ops, c13Op{k, r.Intn(len(p.Corpus))})
+			op := c13Op{Kind: k, Text: r.Intn(len(p.Corpus))}
+			if r.Bool(0.15) {
+				op.Name = 1 + r.Intn(3) // the same text under another input name
+			}
+			if k == "eval" && r.Bool(0.25) {
+				op.Kind, op.Name = "evalshared", 0
+			}
+			ops = append(ops, op)
 		}
 		p.Tasks = append(p.Tasks, ops)
+	}
+	if r.Bool(0.15) {
+		// every task starts by evaluating the same shared tree (its first evaluation ever
+		// happens on several threads at once)
+		t := r.Intn(len(p.Corpus))
+		for k, txt := range p.Corpus {
+			// (prefer a text whose evaluation keeps per-call state: loops, interpolation)
+			if (strings.Contains(txt, "range(") || strings.Contains(txt, "{{")) && len(txt) < 400 && r.Bool(0.5) {
+				t = k
+			}
+		}
+		for i := range p.Tasks {
+			p.Tasks[i] = append([]c13Op{{Kind: "evalshared", Text: t}}, p.Tasks[i]...)
+		}
 	}
 	return p
 }
@@ -233,7 +269,7 @@ func c13Do(op c13Op, p *c13Plan, erp *interpreter.ECALRuntimeProvider) (result s
 	}()
 	text := p.Corpus[op.Text]
 	if op.Kind == "print" {
-		ast, err := parser.Parse(p.nameOf(op.Text), text)
+		ast, err := parser.Parse(p.nameFor(op), text)
 		if err != nil {
 			return "error: " + err.Error()
 		}
@@ -247,7 +283,7 @@ func c13Do(op c13Op, p *c13Plan, erp *interpreter.ECALRuntimeProvider) (result s
 		return "printed: " + out
 	}
 	if op.Kind == "parse" {
-		ast, err := parser.Parse(p.nameOf(op.Text), text)
+		ast, err := parser.Parse(p.nameFor(op), text)
 		if (ast == nil) == (err == nil) {
 			return fmt.Sprintf("BOTH-OR-NEITHER tree=%v err=%v", ast != nil, err)
 		}
@@ -257,15 +293,31 @@ func c13Do(op c13Op, p *c13Plan, erp *interpreter.ECALRuntimeProvider) (result s
 			}
 			return "error: " + err.Error()
 		}
+		c13CheckSource(ast, p.nameFor(op), text)
 		return "tree: " + c13Digest(ast)
 	}
-	ast, err := parser.ParseWithRuntime(p.nameOf(op.Text), text, erp)
+	if op.Kind == "evalshared" {
+		// the tree was parsed and validated once, before the concurrent phase (nil: the
+		// text does not parse); every task evaluates it in a scope of its own
+		ast := c13Shared[op.Text]
+		if ast == nil {
+			op.Kind = "eval"
+			return c13Do(op, p, erp)
+		}
+		res, err := ast.Runtime.Eval(newGlobalScope(), make(map[string]interface{}), c13SharedErp.NewThreadID())
+		if err != nil {
+			return "eval-error: " + err.Error()
+		}
+		return "value: " + fmt.Sprint(res)
+	}
+	ast, err := parser.ParseWithRuntime(p.nameFor(op), text, erp)
 	if err != nil {
 		if c13Errs != nil {
 			*c13Errs = append(*c13Errs, c13KeptErr{err, err.Error(), op})
 		}
 		return "eval-error: " + err.Error()
 	}
+	c13CheckSource(ast, p.nameFor(op), text)
 	if c13Keep != nil {
 		*c13Keep = append(*c13Keep, ast)
 	}
@@ -277,6 +329,20 @@ func c13Do(op c13Op, p *c13Plan, erp *interpreter.ECALRuntimeProvider) (result s
 		return "eval-error: " + err.Error()
 	}
 	return "value: " + fmt.Sprint(res)
+}
+
+// c13CheckSource: every token of a tree carries the input name its parse was given.
+func c13CheckSource(n *parser.ASTNode, name string, text string) {
+	if n == nil {
+		return
+	}
+	if n.Token != nil && n.Token.Lsource != name {
+		simrt.Fail("oracle:parse-not-reentrant", "foreign-source-label",
+			"a token (%q, line %d) of the tree returned for input name %q carries the source label %q.\n--- text:\n%s", n.Token.Val, n.Token.Lline, name, n.Token.Lsource, clip(text))
+	}
+	for _, c := range n.Children {
+		c13CheckSource(c, name, text)
+	}
 }
 
 // c13Digest renders a tree compactly (kind, token value, children) without going
@@ -397,7 +463,23 @@ func c13Run(p *c13Plan) {
 		for _, ops := range p.Tasks {
 			for _, op := range ops {
 				if _, ok := ref[op]; !ok {
-					ref[op] = c13Do(op, p, refErp)
+					alone := op
+					if op.Kind == "evalshared" {
+						alone.Kind = "eval" // reference: a tree of its own, parsed and evaluated alone
+					}
+					ref[op] = c13Do(alone, p, refErp)
+				}
+			}
+		}
+	}
+	c13Shared, c13SharedErp = map[int]*parser.ASTNode{}, mk()
+	defer func() { c13Shared, c13SharedErp = nil, nil }()
+	for _, ops := range p.Tasks {
+		for _, op := range ops {
+			if op.Kind == "evalshared" && c13Shared[op.Text] == nil {
+				if ast, err := parser.ParseWithRuntime(p.nameOf(op.Text), p.Corpus[op.Text], c13SharedErp); err == nil && ast.Runtime.Validate() == nil {
+					c13Shared[op.Text] = ast
+					simrt.Count("reach_shared_tree")
 				}
 			}
 		}
